@@ -124,6 +124,50 @@ def parse_clone(cls, src, name):
     return ('leaf', p)
   return [expr(a) for a in c.args]
 
+def parse_init(cls, src, fn_globals, pytype):
+  """generated __init__: every Bits field is wrapped in its own type, every struct / list field defaults to a structure in which
+  EVERY element is a separate constructor call (no `[row] * n`, no shared default object).  pytype(shape) gives the python type
+  a 'b' / 's' shape must be constructed with.  Returns the default-value structure per field as ctrees (paths by position)."""
+  try:
+    mod = ast.parse(src)
+  except SyntaxError as e:
+    raise Refuse(f'__init__: generated text does not parse: {e}')
+  _need(len(mod.body) == 1 and isinstance(mod.body[0], ast.FunctionDef) and mod.body[0].name == '__init__', '__init__: not a single def __init__')
+  fn = mod.body[0]; a = fn.args
+  _need(not (a.vararg or a.kwarg or a.kwonlyargs or a.posonlyargs or a.kw_defaults), '__init__: unexpected argument forms')
+  names = [x.arg for x in a.args]
+  fnames = [n for n, _ in cls.fields]
+  _need(len(names) == len(fnames) + 1 and names[1:] == fnames, f'__init__: arguments {names[1:]} are not the declared fields {fnames}')
+  selfn = names[0]
+  _need(selfn not in fnames, '__init__: the self name collides with a field')
+  _need(len(a.defaults) == len(fnames), '__init__: not every field has a default')
+  for d, (n, sh) in zip(a.defaults, cls.fields):
+    _need(isinstance(d, ast.Constant) and ((sh[0] == 'b' and type(d.value) is int and d.value == 0) or (sh[0] != 'b' and d.value is None)),
+          f'__init__: default of {n} is not 0 / None')
+  _need(len(fn.body) == len(fnames), '__init__: not one statement per field')
+  def ctor(node, sh, n, args):
+    ok = isinstance(node, ast.Call) and isinstance(node.func, ast.Name) and not node.keywords and len(node.args) == len(args)
+    _need(ok, f'__init__: {n}: not a constructor call')
+    _need(node.func.id not in names, f'__init__: {n}: constructor name {node.func.id} is shadowed by an argument')
+    _need(fn_globals.get(node.func.id) is pytype(sh), f'__init__: {n}: {node.func.id} is not bound to the declared type')
+    for x, y in zip(node.args, args): _need(is_name(x, y), f'__init__: {n}: unexpected constructor argument')
+  out = []
+  for i, (st, (n, sh)) in enumerate(zip(fn.body, cls.fields)):
+    _need(isinstance(st, ast.Assign) and len(st.targets) == 1 and is_attr(st.targets[0], selfn, n), f'__init__: statement {i} does not assign field {n}')
+    if sh[0] == 'b':
+      ctor(st.value, sh, n, [n]); out.append(('leaf', [('F', i)])); continue
+    v = st.value
+    _need(isinstance(v, ast.BoolOp) and isinstance(v.op, ast.Or) and len(v.values) == 2 and is_name(v.values[0], n), f'__init__: {n}: not `{n} or <default>`')
+    def dflt(node, sh, path):
+      if sh[0] == 'l':
+        _need(isinstance(node, ast.List), f'__init__: {n}: default of a list (dimension) is not a list literal of separate elements')
+        _need(len(node.elts) == sh[1], f'__init__: {n}: default list has {len(node.elts)} elements, declared {sh[1]}')
+        return ('list', [dflt(e, sh[2], path + [('I', j)]) for j, e in enumerate(node.elts)])
+      ctor(node, sh, n, [])
+      return ('leaf', path)
+    out.append(dflt(v.values[1], sh, [('F', i)]))
+  return out
+
 def _cast_prologue(stmt, what):
   # if self.__class__ is not other.__class__: other = self.__class__.from_bits( other.to_bits() )
   ok = (isinstance(stmt, ast.If) and not stmt.orelse and isinstance(stmt.test, ast.Compare) and len(stmt.test.ops) == 1
